@@ -620,7 +620,10 @@ def check_occupancy_bound(view, R, prefix="C05"):
         window = cs[idx] - cs[lo]
         init_share = G[0] * np.maximum(0.0, (n - idx) / n)
         bound = window + init_share
-        ok = G <= bound * (1 + 1e-9) + 1e-9 * np.maximum(1.0, np.max(np.abs(A)) if T else 1.0)
+        # tolerance relative to the largest magnitude that went through the group (cancellation residue of a huge cohort
+        # that has just been flushed is of the order of 1e-16 of that cohort)
+        big = max(1.0, float(np.nanmax(np.abs(A))) if T else 1.0, float(np.nanmax(np.abs(G))) if T else 1.0)
+        ok = G <= bound * (1 + 1e-9) + 1e-9 * big
         ok |= ~np.isfinite(bound)
         if not np.all(ok):
             i = int(np.argmax(~ok))
